@@ -50,7 +50,17 @@ def check_run(scn, run, drv, res, *, monitors_on=(), corr=("sim", "ticker"), cas
     treqs, texp = [], []
     if "ticker" in corr:
         treqs, texp, _ = model.ticker_requests(run["trace"])
-    replies = drv.eval(reqs + treqs)
+    mreq = [model.master_loop_request(run)] if "mloop" in corr else []
+    replies = drv.eval(reqs + treqs + mreq)
+    if mreq:
+        mrep = replies[-1]
+        replies = replies[:-1]
+        if not (mrep or {}).get("accepted", False):
+            i = (mrep or {}).get("at")
+            evs = mreq[0]["events"]
+            res.diverge(f"master run loop (flag protocol model): observed event #{i} {evs[i] if isinstance(i, int) and i < len(evs) else None} "
+                        f"after {evs[max(0, (i or 0) - 3):i] if isinstance(i, int) else None} is not possible in the model (model states: {(mrep or {}).get('pcs')})"[:600], case)
+        res.traces_validated += 1
     if want_sim:
         rep = replies[0]
         tid = monitors.master_tid(run)
